@@ -56,13 +56,13 @@ func init() {
 		"errors.Is":          inErrorsIs,
 		"errors.As":          inErrorsAs,
 
-		"internal/reflectlite.ValueOf":       inRLValueOf,
-		"(internal/reflectlite.Value).Len":   inRLLen,
-		"internal/reflectlite.Swapper":       inRLSwapper,
-		"reflect.ValueOf":                    inRLValueOf,
-		"(reflect.Value).Len":                inRLLen,
-		"reflect.Swapper":                    inRLSwapper,
-		"reflect.DeepEqual":                  inDeepEqual,
+		"internal/reflectlite.ValueOf":     inRLValueOf,
+		"(internal/reflectlite.Value).Len": inRLLen,
+		"internal/reflectlite.Swapper":     inRLSwapper,
+		"reflect.ValueOf":                  inRLValueOf,
+		"(reflect.Value).Len":              inRLLen,
+		"reflect.Swapper":                  inRLSwapper,
+		"reflect.DeepEqual":                inDeepEqual,
 
 		"(*sync.Mutex).Lock":      func(fr *frame, a []value) (value, bool) { fr.m.mutexLock(a[0].(*value)); return nil, true },
 		"(*sync.Mutex).Unlock":    func(fr *frame, a []value) (value, bool) { fr.m.mutexUnlock(a[0].(*value)); return nil, true },
@@ -77,21 +77,21 @@ func init() {
 		"(*sync.WaitGroup).Wait":  inWGWait,
 		"(*sync.WaitGroup).Go":    inWGGo,
 
-		"context.Background":  func(fr *frame, a []value) (value, bool) { return fr.m.newCtx(nil), true },
-		"context.TODO":        func(fr *frame, a []value) (value, bool) { return fr.m.newCtx(nil), true },
-		"context.WithCancel":  inWithCancel,
-		"context.WithTimeout": inWithTimeout,
+		"context.Background":   func(fr *frame, a []value) (value, bool) { return fr.m.newCtx(nil), true },
+		"context.TODO":         func(fr *frame, a []value) (value, bool) { return fr.m.newCtx(nil), true },
+		"context.WithCancel":   inWithCancel,
+		"context.WithTimeout":  inWithTimeout,
 		"context.WithDeadline": inWithTimeout,
-		"context.WithValue":   func(fr *frame, a []value) (value, bool) { return a[0], true },
+		"context.WithValue":    func(fr *frame, a []value) (value, bool) { return a[0], true },
 
-		"time.Now":             inTimeNow,
-		"time.Since":           inTimeSince,
-		"(time.Time).Sub":      inTimeSub,
-		"(time.Time).Add":      inTimeAdd,
-		"(time.Time).Before":   inTimeCmp(token.LSS),
-		"(time.Time).After":    inTimeCmp(token.GTR),
-		"(time.Time).Equal":    inTimeCmp(token.EQL),
-		"(time.Time).IsZero":   inTimeIsZero,
+		"time.Now":                inTimeNow,
+		"time.Since":              inTimeSince,
+		"(time.Time).Sub":         inTimeSub,
+		"(time.Time).Add":         inTimeAdd,
+		"(time.Time).Before":      inTimeCmp(token.LSS),
+		"(time.Time).After":       inTimeCmp(token.GTR),
+		"(time.Time).Equal":       inTimeCmp(token.EQL),
+		"(time.Time).IsZero":      inTimeIsZero,
 		"(time.Duration).Seconds": inDurFloat("1000000000.0"),
 		"(time.Duration).Minutes": inDurFloat("60000000000.0"),
 		"(time.Duration).Hours":   inDurFloat("3600000000000.0"),
@@ -132,9 +132,9 @@ func init() {
 			cell := zero(t)
 			return tuple{iface{t: types.NewPointer(t), v: &cell}, iface{}}, true
 		},
-		"runtime.Gosched":                func(fr *frame, a []value) (value, bool) { fr.m.schedPoint("gosched"); return nil, true },
-		"runtime.SetFinalizer":           inNop,
-		"runtime.KeepAlive":              inNop,
+		"runtime.Gosched":      func(fr *frame, a []value) (value, bool) { fr.m.schedPoint("gosched"); return nil, true },
+		"runtime.SetFinalizer": inNop,
+		"runtime.KeepAlive":    inNop,
 	}
 	for k, v := range base {
 		intrinsics[k] = v
